@@ -461,7 +461,9 @@ def strategies():
     scalar = st.one_of(st.integers(-3, 3), st.sampled_from(["v", "", None, True, 1.5]))
     leafv = st.one_of(scalar, scalar, st.lists(scalar, max_size=2), st.tuples(scalar), st.tuples(scalar, st.lists(scalar, max_size=1)),
                       st.dictionaries(st.sampled_from(["k", "j", "items", "a"]), scalar, max_size=2),
-                      st.just({"k": {"j": 2}}), st.lists(st.dictionaries(st.just("k"), scalar, max_size=1), max_size=2))
+                      st.just({"k": {"j": 2}}), st.lists(st.dictionaries(st.just("k"), scalar, max_size=1), max_size=2),
+                      # containers that mix mappings with other values
+                      st.sampled_from([[{"k": 1}, 2], [1, {"k": 2}, None], {"p": {"x": 1}, "q": 3}, [[{"k": 1}]]]))
     name = st.one_of(st.sampled_from(ORD), st.sampled_from(ORD), st.sampled_from(CLASH), st.sampled_from(CLASH), st.sampled_from(PRIVATE))
     nsv = st.recursive(st.dictionaries(name, leafv, max_size=3).map(lambda d: {"$ns": d}),
                        lambda inner: st.dictionaries(name, st.one_of(leafv, inner), max_size=3).map(lambda d: {"$ns": d}), max_leaves=6)
